@@ -771,6 +771,26 @@ def hostile_cases(rng, tier):
                             mk_case([S("200 OK", [("X-A", "a"), ("X-B", "b")], lists=lists), ["M", 1, isv, evil]], steps=[Y(b"b")])))
                 out.append((("pair mutated after output", lists, isv, evil),
                             mk_case([S("200 OK", [("X-A", "a"), ("X-B", "b")], lists=lists), W(b"x"), ["M", 0, isv, evil]], steps=[Y(b"b")])))
+    # every header NAME the code special-cases, crossed with hostile VALUES -- including values
+    # that still parse for that branch (int() tolerates surrounding whitespace, CR and LF included)
+    special_names = ["content-length", "date", "server", "via", "connection"] + HOP
+    for nm in special_names:
+        base = "4" if nm == "content-length" else "v1"
+        for name in (nm, nm.title(), nm.upper()):
+            for h in HOSTILE + ["\r\n ", " \r\n", "\n\r", "_", "+", "-", "\u2028", "\u3000", "\u0660"]:
+                for val in placements(base, h):
+                    hs = [("X-Before", "b"), (name, val), ("X-After", "a")]
+                    for vtag, call, steps in start_variants("200 OK", hs)[:2]:
+                        version, conn = req_mix[k % len(req_mix)]
+                        k += 1
+                        out.append((("special name x hostile value", nm, repr(h), vtag),
+                                    mk_case(call, steps=steps, version=version, conn=conn)))
+            # hostile characters in the special NAME itself
+            for h in ("\r", "\n", "\r\n", "\x00", " ", ":"):
+                for nm2 in (name + h, h + name):
+                    hs = [(nm2, base)]
+                    vtag, call, steps = start_variants("200 OK", hs)[0]
+                    out.append((("special name with hostile char", nm, repr(h)), mk_case(call, steps=steps)))
     # random header lists over a hostile alphabet
     alpha = "aZ-: \r\n\x00\x0b\x85Ā\xe9" + "cont-legh"
     n = 400 if tier == "quick" else 6000
@@ -816,6 +836,10 @@ def in_oracle_domain(case):
         if a[0] == "S":
             for k, v in a[2]:
                 if not is_nonstr(k) and not name_in_oracle_domain(k):
+                    return False
+                # int() of CPython accepts every Unicode decimal digit; the model's py_int ASCII digits only
+                if (not is_nonstr(k) and not is_nonstr(v) and k.lower() == "content-length"
+                        and any(c.isdecimal() and ord(c) > 127 for c in v)):
                     return False
         elif a[0] == "M" and not a[2] and not name_in_oracle_domain(a[3]):
             return False
